@@ -89,7 +89,7 @@ pub fn question<S: Src, K: Skel, const ORDER: u8>(s: &mut S) -> Verdict {
     let qclass = spec::rd16(&p, q.name_end + 2);
     let mut wire = [0u8; 256];
     let wn = spec::name_wire(&p, q.start, &mut wire);
-    let mut text = [0u8; 1024];
+    let mut text = [0u8; 300];
     let tn = spec::name_text(&p, q.start, &mut text, true);
     let mut step = 0;
     while step < 2 {
